@@ -484,3 +484,78 @@ def bool_edges(a, pred):
         te += tr
         fe += f
     return te, fe
+
+
+_OPSET = {'Lt': {'L'}, 'Le': {'L', 'E'}, 'Gt': {'G'}, 'Ge': {'G', 'E'}, 'Eq': {'E'}, 'Ne': {'L', 'G'}}
+_ORD_DISCR = {'255': 'L', '-1': 'L', '0': 'E', '1': 'G'}
+
+
+def order_refinements(a, blks, is_x, is_y):
+    """{edge: subset of {'L','E','G'}}: what an edge leaving a block of `blks` tells about the order of x relative to y
+    (L: x < y, E: x == y, G: x > y).  Both source forms are recognised: a switch on a boolean comparison of x and y
+    (either orientation, through `!`), and a switch on the discriminant of `x.cmp(&y)` / `y.cmp(&x)`."""
+    ref = {}
+    for b in blks:
+        t = a.blocks[b]['t']
+        if t['k'] != 'switch':
+            continue
+        ce = cond_edges(a, b)
+        if ce:
+            op, l, r, te, fe = ce
+            if is_x(l) and is_y(r):
+                pass
+            elif is_x(r) and is_y(l):
+                op = _SWAP[op]
+            else:
+                continue
+            for e in te:
+                ref[e] = set(_OPSET[op])
+            for e in fe:
+                ref[e] = set(_OPSET[_NEG[op]])
+            continue
+        e = a.flow.expr(t['d'])
+        if e[0] == 'discr' and e[2].startswith('core::cmp::Ordering'):
+            c = a.root_call(e[1])
+            if c is None or strip_generics(c[1]).split('::')[-1] not in ('cmp',) or len(c[2]) != 2:
+                continue
+            if is_x(c[2][0]) and is_y(c[2][1]):
+                swap = False
+            elif is_x(c[2][1]) and is_y(c[2][0]):
+                swap = True
+            else:
+                continue
+            listed = set()
+            for v, tgt in t['ts']:
+                o = _ORD_DISCR.get(str(v))
+                if o is None:
+                    continue
+                if swap:
+                    o = {'L': 'G', 'G': 'L', 'E': 'E'}[o]
+                listed.add(o)
+                ref.setdefault((b, tgt), set()).add(o)
+            if t['o'] in a.cfg.succ[b]:
+                ref.setdefault((b, t['o']), set()).update({'L', 'E', 'G'} - listed)
+    return ref
+
+
+def order_states(a, entry, blks, is_x, is_y):
+    """forward may-analysis over the blocks `blks` starting at `entry` (state {'L','E','G'} there, and again at `entry`
+    whenever it is re-entered): {block: orders of x relative to y that are possible on entry to the block}.  Blocks not
+    reachable from entry inside blks are absent.  Returns (states, refinements)."""
+    ref = order_refinements(a, blks, is_x, is_y)
+    st = {entry: {'L', 'E', 'G'}}
+    work = [entry]
+    while work:
+        b = work.pop()
+        for s in a.cfg.succ[b]:
+            if s not in blks or s == entry:
+                continue
+            out = set(st[b])
+            if (b, s) in ref:
+                out &= ref[(b, s)]
+            if not out:
+                continue
+            if s not in st or not out <= st[s]:
+                st[s] = st.get(s, set()) | out
+                work.append(s)
+    return st, ref
